@@ -53,6 +53,17 @@ def check_mol(acc, m, tag, full_grid):
         inv = m.linear_smiles_hash(1, 4, 4)
         if {(k, s) for k, v in d.items() for s in v} != {(k, s) for s, v in inv.items() for k in v}:
             bad('linear_smiles_hash is not the inverse of linear_hash_smiles')
+        # both dictionaries under every cap, positional and keyword
+        for lo_, hi_, nbp_ in ((1, 4, 0), (1, 4, 1), (1, 4, 2), (2, 5, 3), (1, 3, 6)):
+            acc.transitions += 2
+            d_ = m.linear_hash_smiles(lo_, hi_, nbp_)
+            if set(d_) != paths.linear_hash_set(atoms, adj, lo_, hi_, nbp_):
+                bad('linear_hash_smiles keys differ from hash set', params=[lo_, hi_, nbp_])
+                break
+            for how, inv_ in (('positional', m.linear_smiles_hash(lo_, hi_, nbp_)), ('keyword', m.linear_smiles_hash(min_radius=lo_, max_radius=hi_, number_bit_pairs=nbp_))):
+                if {(k, s_) for k, v in d_.items() for s_ in v} != {(k, s_) for s_, v in inv_.items() for k in v}:
+                    bad('linear_smiles_hash is not the inverse of linear_hash_smiles', params=[lo_, hi_, nbp_, how])
+                    break
         dm = m.morgan_hash_smiles(1, 3)
         if set(dm) != paths.morgan_hash_set(atoms, adj, 1, 3):
             bad('morgan_hash_smiles keys differ from hash set')
